@@ -294,6 +294,33 @@ def check_flags(cx, chk, g):
                         for (a_, v_) in cl.assume:
                             if a_[0] == "discr" and isinstance(v_, int) and 0 <= v_ < len(variants):
                                 got[variants[v_]].add(fname)
+        elif len(rets) == 1 and rets[0].ret is not None and is_call(rets[0].ret, "fold") and len(rets[0].ret[2]) == 3 and rets[0].ret[2][2][0] == "closure" \
+                and any(s_[0] == "field" and s_[2] == "directives" for s_ in walk(rets[0].ret[2][0])):
+            # directives.iter().fold(RuleFlags::default(), |flags, d| match d { V(_) => RuleFlags { f: true, ..flags }, .. })
+            init, clo = rets[0].ret[2][1], rets[0].ret[2][2]
+            init_ok = is_call(init, "default") or (init[0] == "agg" and all(v_ == ("const", "bool", False) for (_, v_) in init[3]))
+            csm = S.summarize(clo[1])
+            if init_ok and csm is not None and csm.complete:
+                recognised = True
+                ACC = mir.mk("param", 2)
+                for cl in csm.returns:
+                    ks = [v_ for (a_, v_) in cl.assume if a_[0] == "discr" and isinstance(v_, int)]
+                    r_ = cl.ret
+                    if not ks or r_ is None:
+                        recognised = False
+                        continue
+                    kv = ks[-1]
+                    if r_ == ACC:
+                        continue
+                    if r_[0] != "agg" or not r_[1].endswith("RuleFlags"):
+                        recognised = False
+                        continue
+                    for (fname, fv) in r_[3]:
+                        if fv == ("const", "bool", True):
+                            if 0 <= kv < len(variants):
+                                got[variants[kv]].add(fname)
+                        elif fv != mir.mk("field", ACC, fname):
+                            chk.violation("C12.flags", "odd flag write", "unrecognised value of rule flag %s in the fold over the directives: %s" % (fname, mir.show(fv)[:80]), cx.site(b))
     if not recognised:
         # structural fallback: field writes under a match on the directive
         for i in sorted(b.reach):
